@@ -660,7 +660,7 @@ func (w *World) Close() {
 
 // ---- fault and workload API used by the drivers
 
-// Fault arms one fault. Kinds: dropPost, loseAck, restart, unready, failStatus, failRuntime, staleHash, removeTail.
+// Fault arms one fault. Kinds: dropPost, loseAck, restart, unready, failStatus, failRuntime, staleHash, removeTail, noJobClient, restoreJobClient.
 func (w *World) Fault(kind string, shardIdx, cycles int) string {
 	if kind == "removeTail" {
 		if len(w.nodes) == 0 {
@@ -693,6 +693,19 @@ func (w *World) Fault(kind string, shardIdx, cycles int) string {
 		n.failRT = cycles
 	case "staleHash":
 		n.staleHash = cycles
+	case "noJobClient":
+		// this pod cannot build the HTTP client of the job (e.g. its CA file is unreadable there):
+		// scrape.Manager.ApplyConfig skips such a job, the configuration hash stays the same
+		cfg, err := config.Load(strings.Replace(cfgText, "  scrape_timeout: 5s\n", "  scrape_timeout: 5s\n  tls_config:\n    ca_file: /nonexistent/ca-of-this-pod.pem\n", 1), false, log.NewNopLogger())
+		if err != nil {
+			return "bad config: " + err.Error()
+		}
+		_ = n.in.SM.ApplyConfig(&prom.ConfigInfo{Config: cfg, ExtraConfig: &prom.ExtraConfig{}})
+		if n.in.SM.GetJob("job") != nil {
+			return "job client still present"
+		}
+	case "restoreJobClient":
+		_ = n.in.SM.ApplyConfig(n.in.Cfg.ConfigInfo())
 	}
 	return ""
 }
